@@ -116,24 +116,30 @@ func VH_RT_w2() {
 	w, err := cfg.NewWriter2(&sink)
 	vAssert(err == nil, "valid configuration accepted")
 	var written []byte
-	steps := 4
+	steps := 5
 	if vThorough() {
 		steps = 6
 	}
 	closed := false
 	for i := 0; i < steps; i++ {
-		op := vConcretize(int(vNondetU8("op")) % 4)
+		// 0 small write, 1 incompressible write (stored raw), 2 compressible run (stored compressed), 3 Flush, 4 Close
+		op := vConcretize(int(vNondetU8("op")) % 5)
 		if i == 0 {
 			vAssume(vShards() <= 4 || op == vShardIdx()/4)
 		}
 		before := sink.Len()
 		switch op {
-		case 0, 1: // Write of 0..2 bytes over {0x00,'a'} or of 2 incompressible bytes
+		case 0, 1, 2:
 			var p []byte
-			if op == 0 {
-				p = vBits("bit", vConcretize(int(vNondetU8("len"))%3), 0, 'a')
-			} else {
-				p = []byte{0x9c, 0x3e}
+			switch op {
+			case 0:
+				if vConcretize(int(vNondetU8("len"))%2) == 1 { // zero-length write or two bytes
+					p = []byte{0, 'a'}
+				}
+			case 1:
+				p = []byte{0x9c, 0x3e, 0x13, 0xa7, 0x5c, 0xe1, 0x08, 0xf4}
+			case 2:
+				p = []byte("abababababababababababab")
 			}
 			k, err := w.Write(p)
 			if closed {
@@ -143,7 +149,7 @@ func VH_RT_w2() {
 				vAssert(err == nil && k == len(p), "Write succeeds")
 				written = append(written, p...)
 			}
-		case 2:
+		case 3:
 			err := w.Flush()
 			if closed {
 				vAssert(err != nil, "Flush after Close fails")
@@ -165,7 +171,7 @@ func VH_RT_w2() {
 			vAssert(err == nil, "reader opens on flushed output")
 			got, rerr := vReadAll(r, 5)
 			vAssert(bytes.Equal(got, written) && rerr != nil && rerr != io.EOF, "library reader: all flushed data, then an error (no end chunk yet), never a clean end")
-		case 3:
+		case 4:
 			err := w.Close()
 			if closed {
 				vAssert(err != nil, "second Close fails")
